@@ -1,7 +1,7 @@
 (* C10 — sensitivity witnesses (nothing here is a defect of the pinned tree).
    They document why the theorems are stated the way they are. *)
 From Coq Require Import ZArith List Bool.
-From Tally Require Import Base.Obs Model.Buckets Model.Timer Proof.TimerP.
+From Tally Require Import Base.ObsCore Model.Buckets Model.Timer Proof.TimerP.
 Import ListNotations.
 Open Scope Z_scope.
 
